@@ -143,6 +143,16 @@ theorem C08_complete (cfg : Cfg) (ps0 : PS) (salt bRand : Bytes) (a : Nat)
     rw [e2]; simp only []
     rw [e3.1]
 
+/-- **M6 is over the advertised identifier.**  In the setting of `C08_complete` the identifier sent in M6
+    and covered by the accessory's signature is the identifier the accessory advertises
+    (`advertisedId`, the `id` of its Bonjour TXT record): the M6 plaintext is
+    `TLV(advertised id, accessory LTPK, sig)` and `sig` verifies over `HKDF(K) ‖ advertised id ‖ LTPK`. -/
+theorem C08_m6_over_advertised_id (cfg : Cfg) (ps0 : PS) (K : Bytes) (ok : CryptoOK cfg.c ps0.ltpk) :
+    let sig := cfg.c.sign (cfg.c.hkdf K P5_SALT P5_INFO ++ ps0.mac ++ ps0.ltpk)
+    accSub ps0 sig = Tlv.encode [(T_USERNAME, advertisedId ps0), (T_PUBLIC_KEY, ps0.ltpk), (T_PROOF, sig)] ∧
+    cfg.c.sigVerify ps0.ltpk sig (cfg.c.hkdf K P5_SALT P5_INFO ++ advertisedId ps0 ++ ps0.ltpk) = some true :=
+  ⟨rfl, ok.accSig _⟩
+
 /-- **Nothing that happened before matters.**  A served M1 always installs a fresh, unverified verifier
     built from this request's own randomness and the current setup code — whatever verifier was there
     (a failed attempt, an abandoned or even a verified exchange) or none.  (`C08_complete` is stated for an
